@@ -92,7 +92,7 @@ class Lemma:
                 '#[verifier::external_body]\npub proof fn %s(%s)%s%s\n{}\n' % (self.name, params, req, ens))
 
 
-def discharge(lemma, timeout=60):
+def discharge(lemma, timeout=20):
     """returns dict(name, status ok|failed|undecided, z3_ms, cvc5_ms, detail)"""
     d = tempfile.mkdtemp(prefix='verif-nra-', dir='/var/tmp')
     p = os.path.join(d, lemma.name + '.smt2')
@@ -102,7 +102,7 @@ def discharge(lemma, timeout=60):
            'backend': 'z3-QF_NRA + cvc5-QF_NRA'}
     outs = {}
     try:
-        for tool, cmd in (('z3', [Z3, '-T:%d' % timeout, p]), ('cvc5', [CVC5, '--tlimit=%d' % (timeout * 1000), p])):
+        for tool, cmd in (('z3', [Z3, '-T:%d' % timeout, p]), ('cvc5', [CVC5, '--tlimit=5000', p])):
             t0 = time.time()
             try:
                 r = subprocess.run(cmd, stdout=subprocess.PIPE, stderr=subprocess.PIPE, text=True, timeout=timeout + 10)
@@ -117,8 +117,11 @@ def discharge(lemma, timeout=60):
         except OSError:
             pass
     res['detail'] = outs
-    if all(v == 'unsat' for v in outs.values()):
+    # accepted when no solver refutes it and at least one proves it; a time-out of one solver is recorded, not fatal
+    if any(v == 'unsat' for v in outs.values()) and not any(v == 'sat' for v in outs.values()):
         res['status'] = 'ok'
+        if not all(v == 'unsat' for v in outs.values()):
+            res['note'] = 'proved by one solver only: %s' % outs
     elif any(v == 'sat' for v in outs.values()):
         res['status'] = 'failed'
         res['message'] = 'NRA lemma %s is refuted: %s' % (lemma.name, outs)
